@@ -331,6 +331,25 @@ def spelling_stream():
             yield [T("p1", name, nocmd=nocmd, deps=[("p1", "dtest")]), T("p1", "dtest")]
 
 
+# spellings that leave the workspace lexically and name their way back in (in-process root /w/ws; every CLI workspace
+# is <scratch>/.../w/ws), one that comes back beside the workspace (wsx) and one that stays out
+REENTRANT = [("f", "../../ws/p1/a"), ("d", "../../ws/p1/a"), ("d", "../../ws/p1"), ("f", "../../ws/p2/a"),
+             ("f", "../../../w/ws/p1/a"), ("f", "../../ws/p1/a/b"), ("d", "../../ws"), ("f", "../../wsx/p1/a"),
+             ("f", "../../ws/../ws/p1/a")]
+
+
+def reentrant_stream():
+    """S2c: two targets, one output spelled through REENTRANT against every spelling of SPELL and REENTRANT, both package
+    placements, unordered or ordered: conflict detection must judge the PLACE an output denotes, not its spelling."""
+    for (pa, pb) in (("p1", "p1"), ("p1", "p2"), ("p2", "p1")):
+        for o1 in REENTRANT:
+            for o2 in SPELL + REENTRANT:
+                for rel in ("none", "b->a"):
+                    a = T(pa, "a", outs=[o1])
+                    b = T(pb, "b", outs=[o2], deps=[(pa, "a")] if rel == "b->a" else [])
+                    yield [a, b]
+
+
 # spellings for the three-output stream: siblings whose names sort between P and P/ in byte order
 # ("a-x", "a.d", "a b" < "a/b"), nested directories, files inside and beside a directory output
 TRI = [("d", "a"), ("d", "a/b"), ("d", "a-x"), ("d", "a.d"), ("d", "a b"), ("d", "a/b/c"), ("d", "ab"),
@@ -428,9 +447,12 @@ def path_lines(tier):
     short = [s for s in strs if len(s) <= (5 if tier == "quick" else 6)]
     for s in short:
         for pkg in ("", "p1", "p1/q"):
-            lines.append("outpath\t%s\t%s" % (hx(pkg), hx(s)))
+            lines.append("outpath\t%s\t%s\t%s" % (hx(ROOT), hx(pkg), hx(s)))
             lines.append("join\t%s\t%s" % (hx(pkg), hx(s)))
             lines.append("ws\t%s\t%s\t%s" % (hx(ROOT), hx(pkg), hx(s)))
+            # a root over the alphabet of the strings: spellings that re-enter it or share only its first element
+            lines.append("outpath\t%s\t%s\t%s" % (hx("/a/b"), hx(pkg), hx(s)))
+            lines.append("ws\t%s\t%s\t%s" % (hx("/a/b"), hx(pkg), hx(s)))
     tiny = [s for s in strs if len(s) <= 3] + ["dist", "dist2", "dist/a", "dist2/a", "a/b/c", "../a", "../a/b", "."]
     for a in tiny:
         for b in tiny:
@@ -439,6 +461,7 @@ def path_lines(tier):
         for pkg in ("", "p1", "p1/q"):
             for root in (ROOT, "/r"):
                 lines.append("ws\t%s\t%s\t%s" % (hx(root), hx(pkg), hx(rel)))
+                lines.append("outpath\t%s\t%s\t%s" % (hx(root), hx(pkg), hx(rel)))
     return lines
 
 
@@ -507,6 +530,7 @@ def run(out, tier):
         s1 = rng.sample(s1, 20000)
     streams += [("structure", g) for g in s1]
     streams += [("spelling", g) for g in spelling_stream()]
+    streams += [("reentrant", g) for g in reentrant_stream()]
     s2b = list(triple_stream())
     if quick:
         s2b = rng.sample(s2b, 1500)
@@ -580,7 +604,8 @@ def run(out, tier):
         out.violation("correspondence Analysis.v/Path.v ~ internal/analysis broke on %d cases, e.g. %s: impl=%s model=%s; "
                       "no oracle of C11 fails on the implementation" % (len(mism), what, impl[i].replace("\t", " "), model[i].replace("\t", " ")),
                       {"correspondence": "Analysis.classes vs BuildNodeMapFromPackages/BuildGraph/CheckTargetConstraints; "
-                                         "Path.clean/join_path/tries_to_escape/path_within/is_within_workspace vs filepath.Clean/Join and the analysis helpers",
+                                         "Path.clean/join_path/tries_to_escape/path_within/clean_output_path/is_within_workspace vs filepath.Clean/Join and "
+                                         "the analysis helpers",
                        "line": lines[i], "graph": graphs[i] if i < len(graphs) else None, "impl": impl[i], "model": model[i],
                        "mismatching_cases": len(mism)}, no_input=True)
 
@@ -598,9 +623,10 @@ def run(out, tier):
         "rule": "streams: structure = %s of the %d graphs with 1..3 nodes over {target, test target, testonly target, alias} x all "
                 "dependency subsets over the graph's labels and one dangling label; spelling = all pairs of %d output spellings x 2 package "
                 "placements x 4 dependency relations, all two-output and output+bin_output targets, %d input spellings x 3 packages, "
-                "duplicate labels, tests without command; product = seeded draws from the full <=3-node product; random = graphs of 4..12 "
+                "duplicate labels, tests without command; reentrant = %d spellings that leave the workspace lexically and come back x all "
+                "spellings x 3 package placements x unordered/ordered; product = seeded draws from the full <=3-node product; random = graphs of 4..12 "
                 "nodes; path functions on every string over {/ . a b} up to length %d. non-trivial = graph with at least two nodes; "
-                "distinct = distinct wire lines" % ("a seeded sample of 20000" if quick else "all", n_structure, len(SPELL), len(INPUTS),
+                "distinct = distinct wire lines" % ("a seeded sample of 20000" if quick else "all", n_structure, len(SPELL), len(INPUTS), len(REENTRANT),
                                                   6 if quick else 8),
         "exhaustive": not quick,
         "per_stream": per_stream,
@@ -613,9 +639,10 @@ def run(out, tier):
         "cli_tie": cli,
         "cycle_theorem": "faithful: C11_find_cycle_iff / C11_cycle_iff are proved for the three-colour DFS itself, any graph size "
                          "(no bounded sweep, no fallback); C11_find_cycle_fuel: the fuel never runs out",
-        "refuted_witnesses_replayed_on_impl": "corpus/C11/graphs.jsonl lines 2-3 are the witnesses of C11_*_refuted (F2, F3); each must show up as its "
-                                              "KNOWN-FINDING. Lines 1 and 4 are the former witnesses of the repaired findings F1 (dir output outside the "
-                                              "workspace) and F4 (dir output that is the workspace root), now C11_dir_output_escape_rejected / "
+        "refuted_witnesses_replayed_on_impl": "corpus/C11/graphs.jsonl line 2 is the witness of C11_same_target_overlap_refuted (F2); it must show up as "
+                                              "its KNOWN-FINDING. Lines 1, 3 and 4 are the former witnesses of the repaired findings F1 (dir output outside "
+                                              "the workspace), F3 (output that leaves the workspace lexically and re-enters it) and F4 (dir output that is "
+                                              "the workspace root), now C11_dir_output_escape_rejected / C11_reentrant_overlap_rejected / "
                                               "C11_root_dir_overlap_rejected: the implementation must reject them (an acceptance is a VIOLATION unless "
                                               "known_findings.txt still lists the class)",
     })
